@@ -62,6 +62,8 @@ pub fn seeds() -> Vec<(&'static str, &'static str)> {
         ("builtin-at-chain-end", "let o = object extends object extends 7 begin end begin end; print(\"~ ~ ~\\n\", o + 1, o < 9, o == 7)"),
         ("bool-parent", "let o = object extends true begin end; print(\"~ ~\\n\", o & false, o | false)"),
         ("null-parent-eq", "let o = object begin function ==(x) -> 42 end; print(\"~\\n\", o == 1)"),
+        ("field-and-method-share-a-name", "let o = object begin let size = 3; function size() -> this.size + 1 end; o.size <- 10; print(\"~ ~ ~\\n\", o.size, o.size(), o)"),
+        ("field-named-like-inherited-method", "let p = object begin function v() -> 1; let w = 5 end; let c = object extends p begin let v = 2; function w() -> 6 end; print(\"~ ~ ~ ~\\n\", c.v, c.v(), c.w(), c)"),
     ]
 }
 
